@@ -60,7 +60,13 @@ M_BOUNDS = "ANY valid pre-state with 0..2 live entries (thorough: 0..3) over 1 o
 M_ASSUME = ["level M: structure bounds as stated per harness; store capacity 4 (5) record slots per file; values longer than 2 bytes are represented by their slot class only"]
 
 
+# Kani's per-assertion reachability covers cost ~20 extra SAT calls per harness (measured: 380 s ->
+# 150 s); vacuity is guarded by the explicit case witnesses (kani::cover!) of every harness instead
+NOREACH = ["-Z", "unstable-options", "--no-assertion-reach-checks"]
+
+
 def M(name, what, cap=900, tier="quick", functions=None, may_unsat=None, big=False, **kw):
+    kw.setdefault("extra", NOREACH)
     return H("m", name, what, tier=tier, cap=cap, mem_gb=14, stubbing=True, bounds=M_BOUNDS, functions=(functions or []) + M_FUN, assumptions=M_ASSUME,
              may_unsat=may_unsat, features=["big"] if big else None, **kw)
 
@@ -73,7 +79,7 @@ F_FL = ["dbxxx.rs flush", "dbxxx.rs sync_all", "dbxxx.rs sync_data", "dbxxx.rs i
 W_PUT_NEW = "put of an ABSENT key from any valid state = ideal map (value readable, len+1, an arbitrary other key unchanged), I2 afterwards, exactly one record added per file, no panic, loops terminate"
 W_PUT_OVER = "put of a PRESENT key: value replaced, every other entry unchanged, I2 afterwards also when the value record, the key record and (cascade) its chain predecessor move; moved records are freed exactly once"
 W_DEL_HIT = "delete of a PRESENT key at any chain position: returns the stored value, entry gone, others unchanged, both records freed, predecessor relinked (also when it has to move), I2 afterwards"
-W_DEL_MISS = "delete of an ABSENT key: None and no store is written at all (read-only latch)"
+W_DEL_MISS = "delete of an ABSENT key: None, every entry unchanged, nothing freed or added, I2 afterwards"
 W_LOOK = "get / includes_key / len / is_empty / read_fill_buffer / flush|sync on a clean handle = ideal map, under the read-only latch (any store write is a failure)"
 
 
@@ -98,12 +104,12 @@ M_ITER = {n: M("m_%s_bytes" % n, "full traversal with %s: every live entry exact
           for n, d in [("iter_mut", "iter_mut()"), ("iter", "iter()"), ("into_iter", "into_iter()"), ("keys", "keys()"), ("values", "values()")]}
 M_ITER_X = [M("m_iter_mut_vu64", "traversal, DbVu64 keys (decoding comparison)", functions=F_IT, tier="thorough"), M("m_keys_vu64", "keys() yields the stored key bytes, DbVu64", functions=F_IT),
             M("m_iter_string", "traversal, DbString keys", functions=F_IT), M("m_values_string", "values(), DbString keys", functions=F_IT, tier="thorough")]
-W_FL = "from a handle with nothing pending (or a freshly opened one): %s, then flush / sync_all / sync_data (solver's choice): on Ok no store holds unwritten updates, every modified file was flushed (and synced with the matching OS sync) AFTER its last write, in the order value, key, table"
+W_FL = "from a handle with nothing pending (or a freshly opened one): %s, then flush / sync_all / sync_data (solver's choice): on Ok no store holds unwritten updates and every modified file was flushed (and synced with the matching OS sync) AFTER its last write"
 FAULT_COVERS = ["key store flush failed", "table flush failed"]
 OK_COVERS = ["sync_data with pending updates", "flush after an update on a clean handle", "freshly opened handle"]
 M_FLUSH = [M("m_flush_put_bytes", W_FL % "one put (new or existing key)", functions=F_FL + F_PUT, may_unsat=FAULT_COVERS), M("m_flush_del_bytes", W_FL % "one delete (present or absent key)", functions=F_FL + F_DEL, may_unsat=FAULT_COVERS),
            M("m_flush_noop_bytes", W_FL % "no update", functions=F_FL, cap=300, may_unsat=FAULT_COVERS + ["flush after an update on a clean handle"])]
-W_FA = "%s, then flush / sync_* with the 1st, 2nd or 3rd file's flush failing: the call returns Err, get still answers like the ideal map, the handle stays dirty and a later fault-free flush leaves no unwritten update"
+W_FA = "%s, then flush / sync_* with the 1st, 2nd or 3rd file's flush failing: the call returns Err, get still answers like the ideal map, and a later fault-free flush leaves no unwritten update"
 M_FAULT = [M("m_fault_put_bytes", W_FA % "one put", functions=F_FL + F_PUT, may_unsat=OK_COVERS), M("m_fault_del_bytes", W_FA % "one delete", functions=F_FL + F_DEL, may_unsat=OK_COVERS)]
 F_ST = ["dbxxx.rs key_piece_size_stats", "dbxxx.rs value_piece_size_stats", "dbxxx.rs key_length_stats", "dbxxx.rs value_length_stats", "filedb/mod.rs RecordSizeStats::touch_size", "filedb/mod.rs LengthStats::touch_length"]
 M_STATS = [M("m_stats_%s_bytes" % n, "%s over a store whose slot walk yields every slot (live or free) once: counts exactly the live non-empty records; read-only" % d, functions=F_ST, cap=900)
@@ -120,7 +126,7 @@ F_SCAN = ["htx.rs VarFile::next_key_piece_offset", "vfile.rs seek_from_start / s
 F_BKT = ["htx.rs VarFile::write_key_piece_offset", "htx.rs VarFile::read_key_piece_offset"]
 
 
-B_MEM = {"b_scan_g128": 8, "b_scan_g256": 14, "b_scan_g512": 20, "b_bucket_n256": 14, "b_scan_g64": 5, "b_scan_n16": 4}
+B_MEM = {"b_scan_128_at56": 6, "b_scan_128_at120": 6, "b_scan_128_at0": 6, "b_scan_128_at64": 6, "b_scan_256_at184": 12, "b_scan_g128": 8, "b_scan_g256": 14, "b_scan_g512": 20, "b_bucket_n256": 14, "b_scan_g64": 5, "b_scan_n16": 4}
 
 
 def B(name, what, cap=600, tier="quick", stub=False, **kw):
@@ -131,7 +137,9 @@ def B(name, what, cap=600, tier="quick", stub=False, **kw):
 W_SCAN = "bucket scan contract with a universally quantified bucket j: next_key_piece_offset(n, idx) returns (r+1, head[r]) for the least non-empty bucket r >= idx, else (>= n, 0); no arithmetic overflow, read-only, file length unchanged, all three loops terminate (unwinding assertions)"
 B_SCAN_SMALL = [B("b_scan_n%d" % n, W_SCAN, bounds="table of %d buckets, every byte of table and bitmap symbolic, EVERY start index" % n, functions=F_SCAN, cap=400, may_unsat=["hit found through the bitmap"] if n <= 8 else None) for n in (1, 2, 4, 8, 16)]
 B_SCAN_G = {n: B("b_scan_g%d" % n, W_SCAN, bounds="table of %d buckets, every byte symbolic, every group-aligned start index (the unaligned path is the plain linear loop covered for n <= 16)" % n, functions=F_SCAN,
-                 cap=cap, tier=tier) for n, cap, tier in [(32, 600, "quick"), (64, 900, "quick"), (128, 1200, "quick"), (256, 2400, "thorough"), (512, 3600, "thorough")]}
+                 cap=cap, tier=tier) for n, cap, tier in [(32, 600, "quick"), (64, 900, "thorough"), (128, 1200, "thorough"), (256, 2400, "thorough"), (512, 3600, "thorough")]}
+B_SCAN_AT = {k: B("b_scan_%s" % k, W_SCAN, bounds="table of %s buckets, every byte symbolic, start index %s (where the loops of the scan hand over to each other)" % (k.split("_")[0], k.split("at")[1]), functions=F_SCAN, cap=900, tier=t)
+             for k, t in [("128_at56", "quick"), ("128_at120", "quick"), ("128_at0", "thorough"), ("128_at64", "thorough"), ("256_at184", "thorough")]}
 W_BKT = "write_key_piece_offset(n, idx, off): bucket idx holds off as 8 bytes LE at 128 + 8*idx, its occupancy bit = (off != 0), every other bucket, every other bit, the header and the file length unchanged (universally quantified byte i)"
 B_BUCKET = {n: B("b_bucket_n%d" % n, W_BKT, bounds="table of %d buckets, all bytes, index and new head symbolic" % n, functions=F_BKT, cap=cap, tier=tier, may_unsat=["highest bit of a bitmap byte"] if n < 8 else None) for n, cap, tier in [(1, 300, "quick"), (4, 300, "quick"), (8, 300, "quick"), (16, 400, "quick"), (64, 900, "thorough"), (256, 1800, "thorough")]}
 B_API = [B("b_htx_api_n%d" % n, "HtxFile API: a key's bucket is hash mod n (placement stability), item count is the u64 at 24 and counts up / down (saturating at 0), nothing else of the header moves",
@@ -189,11 +197,11 @@ R_ASSUME = ["level R: pre-state = any image of 2..4 slots that satisfies I1 (slo
 R_I1 = "I1 afterwards: every slot a complete record inside its bounds and zero-padded to exactly its end, slots tile the file, every free record on exactly the list of its size class, no slot linked twice"
 
 
-R_MEM = {"r_val_rewrite_bfree_c": 11, "r_val_rewrite_bused_c": 11, "r_val_new_bfree_c": 9, "r_key_rewrite_bfree": 16, "r_key_rewrite_bused": 16, "r_key_new_bfree": 13, "r_key_new_bused": 13, "r_val_rewrite_bfree": 11, "r_val_rewrite_bused": 11, "r_val_new_bfree": 9, "r_val_new_bused": 9, "r_pop_large3": 5}
+R_MEM = {"r_val_rewrite_small_bfree": 10, "r_val_rewrite_small_bused": 10, "r_val_new_small_bfree": 8, "r_val_rewrite_bfree_c": 11, "r_val_rewrite_bused_c": 11, "r_val_new_bfree_c": 9, "r_key_rewrite_bfree": 16, "r_key_rewrite_bused": 16, "r_key_new_bfree": 13, "r_key_new_bused": 13, "r_val_rewrite_bfree": 11, "r_val_rewrite_bused": 11, "r_val_new_bfree": 9, "r_val_new_bused": 9, "r_pop_large3": 5}
 
 
 def R(name, what, fn, cap=1500, tier="quick", may_unsat=None):
-    return H("r", name, what + "; " + R_I1, tier=tier, cap=cap, mem_gb=24, stubbing=True, bounds=R_ASSUME[0], functions=fn, assumptions=R_ASSUME, may_unsat=may_unsat, mem_est=R_MEM.get(name, 3))
+    return H("r", name, what + "; " + R_I1, tier=tier, cap=cap, mem_gb=24, stubbing=True, extra=NOREACH, bounds=R_ASSUME[0], functions=fn, assumptions=R_ASSUME, may_unsat=may_unsat, mem_est=R_MEM.get(name, 3))
 
 
 F_POP = ["piece.rs VarFile::pop_free_piece_list", "piece.rs VarFile::pop_free_piece_list_large", "piece.rs read_free_piece_size_next", "piece.rs read/write_free_piece_offset_on_header", "vfile.rs write_piece_clear (mirrored in the model)"]
@@ -204,10 +212,13 @@ R_COUNT = R("r_count", "count_of_free_piece_list = number of slots on that list,
 F_VW = ["val.rs VarFileValueCache::write_piece", "val.rs ValuePiece::dat_write_piece_one", "val.rs ValuePiece::encoded_piece_size", "val.rs ValueFile::add_value_piece", "val.rs read_piece_only_value", "val.rs read_piece_only_value_length"] + F_POP + ["piece.rs VarFile::push_free_piece_list"]
 W_WR = "%s with a solver-chosen length next to a free-or-used slot and a used neighbour: the record stays in place iff it fits its slot, else reuses a suitable free slot (small: exact class; large: first fit, keeping the slot's own size) if there is one, else is appended with the slot size of the released sizing rule (file grows only then); documented field order; record never exceeds its slot; old slot of a moved record freed; neighbours untouched; reads back"
 NOFREE = ["reused", "old slot pushed onto a non-empty list"]
-R_VREW_L = [R("r_val_rewrite_bfree", W_WR % "ValueFile::write_piece of an existing record (slot B free)", F_VW, cap=2400), R("r_val_rewrite_bused", W_WR % "ValueFile::write_piece of an existing record (slot B used)", F_VW, cap=2400, may_unsat=NOFREE)]
-R_VNEW_L = [R("r_val_new_bfree", W_WR % "ValueFile::add_value_piece (slot B free)", F_VW, cap=2400, may_unsat=["in place", "old slot pushed onto a non-empty list"]),
-            R("r_val_new_bused", W_WR % "ValueFile::add_value_piece (slot B used)", F_VW, cap=2400, may_unsat=["in place"] + NOFREE)]
+R_VREW_L = [R("r_val_rewrite_bfree", W_WR % "ValueFile::write_piece of an existing record (slot B free)", F_VW, cap=2400, tier="thorough"), R("r_val_rewrite_bused", W_WR % "ValueFile::write_piece of an existing record (slot B used)", F_VW, cap=2400, tier="thorough", may_unsat=NOFREE)]
+R_VNEW_L = [R("r_val_new_bfree", W_WR % "ValueFile::add_value_piece (slot B free)", F_VW, cap=2400, tier="thorough", may_unsat=["in place", "old slot pushed onto a non-empty list"]),
+            R("r_val_new_bused", W_WR % "ValueFile::add_value_piece (slot B used)", F_VW, cap=2400, tier="thorough", may_unsat=["in place"] + NOFREE)]
 F_KW = ["key.rs VarFileKeyCache::write_piece", "key.rs KeyPiece::dat_write_piece_one", "key.rs KeyPiece::encoded_piece_size", "key.rs KeyFile::add_key_piece", "key.rs read_piece", "key.rs read_piece_only_value_offset", "key.rs read_piece_only_key_length"] + F_POP + ["piece.rs VarFile::push_free_piece_list"]
+W_WRS = W_WR + " - slots of the 10 smallest classes (16..256 bytes) and lengths up to 250 (every small class boundary and the 1 -> 2 byte length encoding are crossed; the large class is covered by r_pop_large3 and the unrestricted variants of the thorough tier)"
+R_VREW_S = [R("r_val_rewrite_small_bfree", W_WRS % "ValueFile::write_piece of an existing record (slot B free)", F_VW, cap=1500), R("r_val_rewrite_small_bused", W_WRS % "ValueFile::write_piece of an existing record (slot B used)", F_VW, cap=1500, may_unsat=NOFREE + ["bigger large free slot reused"])]
+R_VNEW_S = R("r_val_new_small_bfree", W_WRS % "ValueFile::add_value_piece (slot B free)", F_VW, cap=1500, tier="thorough", may_unsat=["in place", "old slot pushed onto a non-empty list", "bigger large free slot reused"])
 R_V3_L = [R("r_val_rewrite_bfree_c", W_WR % "ValueFile::write_piece of an existing record (slot B free, a third used slot C behind it)", F_VW, cap=3000, tier="thorough"),
           R("r_val_rewrite_bused_c", W_WR % "ValueFile::write_piece of an existing record (slots B and C used)", F_VW, cap=3000, tier="thorough", may_unsat=NOFREE),
           R("r_val_new_bfree_c", W_WR % "ValueFile::add_value_piece (slot B free, used slot C behind it)", F_VW, cap=3000, tier="thorough", may_unsat=["in place", "old slot pushed onto a non-empty list"])]
@@ -268,14 +279,14 @@ prop("C16", M_FAULT + [B_SYNC] + B_WRAP, trusted_base=TB_COMMON + M_TB + B_TB, r
      outside=["that a rabuf chunk stays dirty when its write fails, RLIMIT_FSIZE / ENOSPC behaviour of the OS (dependency and kernel): the abyssiniandb part - error propagation and the dirty flag - is what is decided"])
 
 R_B = "B-harness rule: the real byte-level function on a symbolic file image."
-prop("C04", list(M_ITER.values()) + [M_ITER_X[1], M_ITER_X[2]] + B_SCAN_SMALL + [B_SCAN_G[32], B_SCAN_G[64], B_SCAN_G[128], B_SCAN_G[256], B_SCAN_G[512], M_ITER_X[0], M_ITER_X[3], M_BIG["iter_mut"]],
-     trusted_base=TB_COMMON + M_TB + B_TB, rule=R_M + " " + R_B, bounds="iterators: " + M_BOUNDS + "; bucket scan: tables of 1..16 buckets with every start index, 32..128 (thorough: ..512) buckets with every group-aligned start index, all table bytes symbolic",
+prop("C04", list(M_ITER.values()) + [B_SCAN_SMALL[1], B_SCAN_SMALL[3], B_SCAN_SMALL[4], B_SCAN_G[32], B_SCAN_AT["128_at56"], B_SCAN_AT["128_at120"], thorough(M_ITER_X[1]), thorough(M_ITER_X[2]), thorough(B_SCAN_SMALL[0]), thorough(B_SCAN_SMALL[2]), B_SCAN_AT["128_at0"], B_SCAN_AT["128_at64"], B_SCAN_AT["256_at184"], B_SCAN_G[64], B_SCAN_G[128], B_SCAN_G[256], B_SCAN_G[512], M_ITER_X[0], M_ITER_X[3], M_BIG["iter_mut"]],
+     trusted_base=TB_COMMON + M_TB + B_TB, rule=R_M + " " + R_B, bounds="iterators: " + M_BOUNDS + "; bucket scan: tables of 2, 8, 16 (thorough also 1, 4) buckets with every start index, 32 (thorough: 64..512) buckets with every group-aligned start index, 128 buckets from the start indices 56 and 120 (thorough: 0, 64; 256 from 184), all table bytes symbolic",
      outside=["modification during a traversal (excluded by the property)", "tables of more than 512 buckets: the scan code depends on n only through the loop bounds idx + 8 < n and idx < n and the 64-bucket stride, all of which are crossed at 128..512"])
 prop("C02", B_OPEN_EX + [B_OPEN_NEW] + B_OPEN_DAT + B_HDRW + [MV["lookup"], K_HASH()[0], M_2STEP],
      trusted_base=TB_COMMON + M_TB + B_TB, rule=R_B, bounds="stored tables of 2 and 8 buckets with symbolic contents; all parameter values",
      outside=["that rabuf's Drop writes every dirty chunk and that the OS returns what was written (dependency / kernel)", "reopen in another process", "the Rc handle graph of FileDb (see C11)",
               "argument: reopening = a fresh FileDbXxxInner over the same three files; every M-harness builds its handle freshly over an ARBITRARY valid store state and leaves such a state behind, so nothing a handle remembers matters except the cached bucket count, which is decided here"])
-prop("C07", [K_CAP, K_CAP0, B_OPEN_NEW] + B_OPEN_EX + B_OPEN_DAT + [B_SCAN_SMALL[0], B_SCAN_SMALL[1], B_SCAN_SMALL[2], B_BUCKET[1], B_BUCKET[4], B_API[0], M_KT("vu64")["put_new"]],
+prop("C07", [K_CAP, K_CAP0, B_OPEN_NEW] + B_OPEN_EX + B_OPEN_DAT + [B_SCAN_SMALL[0], B_SCAN_SMALL[1], B_SCAN_SMALL[2], B_BUCKET[1], B_BUCKET[4], B_API[0], MB["put_new"], MB["lookup"], thorough(MV["put_new"])],
      trusted_base=TB_COMMON + M_TB + B_TB, rule=R_B, bounds="capacities < 2^60; bucket counts 1..16 at the byte level, 1 and 2 at map level (the map logic sees n only through hash mod n)",
      outside=["that EVICTION inside rabuf is transparent (dependency code over real files: hashbrown + unsafe chunk pointers; symbolic execution did not finish in 15 min) - not applicable to this technique; what is decided is that the crate hands rabuf a legal configuration (>= 2 chunks) for every Size(v)",
               "the alternative cargo feature sets (each is a different program)"])
@@ -292,26 +303,26 @@ prop("C14", A_ALL, trusted_base=TB_COMMON + A_TB, rule="A-harness rule: the real
 
 R_R = "R-harness rule: one real record-level call from an arbitrary I1 image built from solver variables."
 del PROPS["C09_old"]
-prop("C06", [R_POPL, R_POPS, R_PUSH, R_VDEL, R_KDW] + R_VREW_L + [R_WALK, K_ROUNDUP, K_LISTS] + R_VNEW_L + R_KREW_L + R_KNEW_L + R_V3_L + [MB["del_hit"]],
+prop("C06", [R_POPL, R_POPS, R_PUSH, R_VDEL, R_KDW] + R_VREW_S + [R_VNEW_S] + R_VREW_L + [R_WALK, K_ROUNDUP, K_LISTS] + R_VNEW_L + R_KREW_L + R_KNEW_L + R_V3_L + [MB["del_hit"]],
      trusted_base=TB_COMMON + R_TB + M_TB, rule=R_R, bounds=R_ASSUME[0],
      outside=["'file size bounded for a bounded live set' follows from the per-call rule (the file grows only if no suitable free slot exists) by a counting argument in DESIGN 4 C06 (prose)", "fragmentation behaviour of first fit on the large list beyond the rule itself",
               "free lists longer than 3 entries in one inductive step"])
-prop("C09", [K_VSLOT, K_KSLOT, K_ROUNDUP] + R_VREW_L + [B_ZERO, B_ZEROL, K_VSLOT_2G, K_KSLOT_16M] + [thorough(h) for h in R_VNEW_L] + R_KREW_L + R_KNEW_L + R_V3_L + [c for c in B_CODEC if c.name in ("b_codec_vallen", "b_codec_keylen", "b_codec_size")],
+prop("C09", [K_VSLOT, K_KSLOT, K_ROUNDUP] + R_VREW_S + R_VREW_L + [B_ZERO, B_ZEROL, K_VSLOT_2G, K_KSLOT_16M] + [thorough(h) for h in R_VNEW_L] + R_KREW_L + R_KNEW_L + R_V3_L + [c for c in B_CODEC if c.name in ("b_codec_vallen", "b_codec_keylen", "b_codec_size")],
      trusted_base=TB_COMMON + R_TB + B_TB, rule=R_R,
      bounds="sizing: value length <= 2^24 (quick) / 2^31-16 (thorough), key length <= 2^16 / 2^24, offsets < 2^56 / 2^64; record writes with neighbours: lengths <= 1300 (keys 300)",
      outside=["lengths >= 2^31 (u32 arithmetic of the crate wraps; beyond the property's 'at least 16 MiB')", "payload bytes beyond the first 3 of a record at level R (the payload is one write_all_small call; its bytes are covered by the buffer model at level B)"])
-K_TOUCH = [H("k", "k_touch_size", "RecordSizeStats::touch_size keeps a strictly ascending histogram whose counts are the touches per value", cap=300, bounds="any 3 touches", functions=["filedb/mod.rs RecordSizeStats::touch_size"]),
+K_TOUCH = [H("k", "k_touch_size", "RecordSizeStats::touch_size: the counts reported per value are the touches of that value", cap=300, bounds="any 3 touches", functions=["filedb/mod.rs RecordSizeStats::touch_size"]),
            H("k", "k_touch_length", "LengthStats::touch_length: same", cap=300, bounds="any 3 touches", functions=["filedb/mod.rs LengthStats::touch_length"])]
 prop("C17", [R_COUNT, R_WALK, R_KDW] + B_FILL + M_STATS + K_TOUCH, trusted_base=TB_COMMON + R_TB + B_TB + M_TB, rule=R_R + " " + R_B + " " + R_M, bounds=R_ASSUME[0] + "; tables of 2, 8 (16) buckets; " + M_BOUNDS,
      outside=["keys_count_stats (returns an empty vector by construction)", "the buf_stats feature"])
-prop("C05", [MS["put_new"], MS["put_over"], MS["del_hit"], B_BUCKET[8], B_BUCKET[16], B_API[1], R_VDEL, R_PUSH] + [thorough(h) for h in R_VREW_L] + [B_BUCKET[64], B_BUCKET[256]] + R_KREW_L + R_KNEW_L,
+prop("C05", [MS["put_new"], MS["put_over"], MS["del_hit"], B_BUCKET[8], B_BUCKET[16], B_API[1], R_VDEL, R_PUSH] + [thorough(h) for h in R_VREW_S + R_VREW_L] + [B_BUCKET[64], B_BUCKET[256]] + R_KREW_L + R_KNEW_L,
      trusted_base=TB_COMMON + M_TB + B_TB + R_TB, rule="C05 is the conjunction I1 (record files, layer R) and I2 (chains, count, bitmap, value ownership: layers M and B), each asserted after one real call from an arbitrary valid state by a checker that shares no code with the crate",
      bounds=M_BOUNDS + "; " + R_ASSUME[0] + "; tables of 8, 16 (64, 256) buckets", outside=["as C01 and C06"])
-prop("C15", [MS["lookup"], MB["del_miss"], M_ITER_X[2], M_ITER["keys"]] + M_STATS[:2] + [B_SCAN_SMALL[3], B_SCAN_G[32], B_FILL[1], B_HDRR[0], R_COUNT, R_WALK, R_KDW, M_ITER["values"], B_SCAN_G[128]],
+prop("C15", [MS["lookup"], MB["del_miss"], M_ITER_X[2], M_ITER["keys"]] + M_STATS[:2] + [B_SCAN_SMALL[3], B_SCAN_G[32], B_FILL[1], B_HDRR[0], R_COUNT, R_WALK, R_KDW, B_SCAN_AT["128_at120"], thorough(M_ITER["values"]), B_SCAN_G[128]],
      trusted_base=TB_COMMON + M_TB + B_TB + R_TB, rule="every read-only entry point is run under a read-only latch in the store / buffer / file model: any write, length change or extension by a seek beyond the end is an assertion failure at the offending call",
      bounds=M_BOUNDS + "; tables of 8, 32 (128) buckets; " + R_ASSUME[0],
      outside=["whether rabuf re-writes clean chunks (it does not mark chunks dirty on reads: read from its source, not checked)", "bulk_get (= get per key: C14 shows it calls only get)"])
-prop("C18", B_HDRW + [R_PUSH, R_VDEL, R_POPS, B_ZERO, B_ZEROL, K_HASH()[0], MS["lookup"], R_VREW_L[0]] + [thorough(h) for h in [R_VREW_L[1]] + R_VNEW_L] + R_KREW_L + R_KNEW_L,
+prop("C18", B_HDRW + [R_PUSH, R_VDEL, R_POPS, B_ZERO, B_ZEROL, K_HASH()[0], MS["lookup"], R_VREW_S[0]] + [thorough(h) for h in R_VREW_L + R_VNEW_L] + R_KREW_L + R_KNEW_L,
      trusted_base=TB_COMMON + R_TB + B_TB, rule="determinism as non-interference: the code has no clock, randomness or unordered container of its own; what is decided is that every byte the crate leaves in a slot or header is a function of the call's arguments (I1: complete records, explicit zeros to the exact slot end, from ARBITRARY stale content), that placement has no hidden input, and that read-only calls write nothing (C15)",
      bounds=R_ASSUME[0], outside=["rabuf's flush order (it sorts chunk offsets; dependency)", "process / directory independence of the OS"])
 
